@@ -256,10 +256,11 @@ template <class D> D make_domain(Rng& r, int steps_lo = 2, int steps_hi = 9) {
 }
 
 template <class D> D used_target(Rng& r) {
-  switch (r.range(0, 3)) {
+  switch (r.range(0, 5)) {
   case 0: return D(r.range(0, 3), EMPTY);
   case 1: return D(r.range(0, 3), UNIVERSE);
-  default: return make_domain<D>(r, 1, 4);
+  case 2: case 3: { D t = make_domain<D>(r); (void) t.is_empty(); (void) t.minimized_constraints(); return t; }   // closed / reduced / minimized
+  default: return make_domain<D>(r, 1, 6);
   }
 }
 
